@@ -15,8 +15,8 @@ Line-protocol handler for property C01.
   C01.static <program> <observations | ->  → the two-phase resolver model on a PLAIN program:
        `skip not-plain`, or TAB separated
          static  frag=0|1  den=eq|neq|na  rt=ok|na|<class|where|param|expected|observed>  <canonical static phase>
-       frag: the decidable hypotheses of `resolver_refines_den_mapstatic_checked` hold (for a
-             plain program they are those of `resolver_refines_den_plain_checked`);
+       frag: the decidable hypotheses of `resolver_refines_den_mapstatic_checked_partial` hold (for a
+             plain program they are those of `resolver_refines_den_plain_checked_partial`);
        den:  twoPhase = den on the recorded outs (must be `eq` whenever frag=1: the theorem);
        rt:   the model's run-time phase on the model's static phase against the OBSERVED
              `_args` of every stage job and the observed top-level outs;
@@ -455,6 +455,52 @@ def recordedIdx (keys : List InstKey) : IdxRec := fun k =>
         | none => true
     (cand.filterMap fun j => j.forks.lookup c).foldr insertIdx []
 
+def expKind : Exp → String
+  | .lit .null => "null" | .lit (.atom _) => "atom" | .lit _ => "lit"
+  | .arr _ => "arr" | .map _ => "maplit" | .struct _ => "structlit"
+  | .self _ _ => "self" | .ref _ _ => "ref"
+
+def tyText (st : StructTable) (t : Ty) : String :=
+  (if (st.lookup t.base).isSome then "STRUCT" else t.base) ++ s!"/{t.mapDim}/{t.arrDim}"
+
+/-- the first binding that fails the type discipline of the theorems (histogram only) -/
+def firstBadBind (P : Program) : String :=
+  let st := P.table
+  let n := st.length
+  let chk (sT cT : String → Ty) (t : Ty) (e : Exp) : Option String :=
+    if hasTyB st n sT cT t e then none else
+      some (expKind e ++ (match e with
+        | .self p path => ":" ++ tyText st (pathTy st (sT p) path)
+        | .ref c path => ":" ++ tyText st (pathTy st (cT c) path)
+        | _ => "") ++ " -> " ++ tyText st t)
+  let r := P.callables.findSome? fun kv =>
+    match kv.2 with
+    | .stage _ _ => none
+    | .pipeline pins outs calls ret =>
+      let sT := selfTyOfB pins
+      let rec go (L : List (String × Ty)) : List Call → Option String
+        | [] => outs.findSome? fun p =>
+            match ret.lookup p.name with
+            | some e => chk sT (callTyOfB L) p.ty e
+            | none => none
+        | c :: cs =>
+          match (P.insOf c.callee).findSome? (fun p =>
+              match c.binds.find? (fun b => b.param == p.name) with
+              | some b => if b.split then none else chk sT (callTyOfB L) p.ty b.exp
+              | none => none) with
+          | some r => some r
+          | none => go (L ++ [(c.id, callTyMB c)]) cs
+      go [] calls
+  match r with
+  | some r => r
+  | none =>
+    match (P.insOf P.top.callee).findSome? (fun p =>
+        match P.top.binds.find? (fun b => b.param == p.name) with
+        | some b => chk (selfTyOfB []) (callTyOfB []) p.ty b.exp
+        | none => none) with
+    | some r => "top " ++ r
+    | none => "other (split binding / disabled map call / clean)"
+
 mutual
 partial def hasMapMode : STree → Bool
   | .node _ => false
@@ -512,7 +558,7 @@ def staticReply (P : Program) (obs : Option Obs) : String :=
     decide ((nodes.map fun n => fqid n.path).Nodup) &&
     (match obs with
      | some obs => obs.outs.all fun o => J.clean o.2
-     | none => true)
+     | none => true) && ctlNoSplitList s.2
   let (denV, rtV, kindR) : String × String × String :=
     match obs with
     | none => ("na", "na", "")
@@ -528,16 +574,17 @@ def staticReply (P : Program) (obs : Option Obs) : String :=
         | [] => (match k.path.getLast? with | some c => ρc.idx c k.forks | none => [])
         | r => r
       let ρ := storeOfRun fqid nodes occ O I
-      let fragR0 := !treeOkList [] s.2 && callGraphAcyclicB P && wellTypedEB P && acyclicB P.table &&
+      let fragR0 := !(fragT || fragE) && callGraphAcyclicB P && wellTypedRB P && acyclicB P.table &&
         treeOkPList [] s.2 &&
         decide ((nodes.map fun n => fqid n.path).Nodup) && decide ((occ.map (·.1)).Nodup) &&
-        (obs.outs.all fun o => J.clean o.2)
+        (obs.outs.all fun o => J.clean o.2) && treeOkRList [] [] s.2 && ctlNoSplitList s.2
       let fragR := fragR0 && idxOkTList P.table P.nfuel ρ [] s.2
       let d := den P O
       let t := twoPhaseT P fqid ρ
       -- (the tree theorem says den = twoPhaseT exactly when fragT; compared for every program anyway)
-      let same := sameRun d t &&
-        (!frag || sameRun d (twoPhaseM P fqid (storeOfNodes fqid (staticProgram P fqid).2 O))) &&
+      -- the G / T theorems are plain equalities: replayed exactly (audit pass 2, LOW-6)
+      let same := sameRun d t && (!fragT || exactRun d t) &&
+        (!frag || exactRun d (twoPhaseM P fqid (storeOfNodes fqid (staticProgram P fqid).2 O))) &&
         (!fragE || exactRun (eraseRun d) t) && (!fragR || exactRun (eraseRun d) t)
       let jobDiff := obs.jobs.findSome? fun j =>
         if j.chunk then none else
@@ -553,10 +600,10 @@ def staticReply (P : Program) (obs : Option Obs) : String :=
   let why := if frag || fragT || fragE || kindR == "R" then "" else
     if !callGraphAcyclicB P then "call-graph" else
     if !acyclicB P.table then "struct-table" else
-    if !wellTypedEB P then
+    if !wellTypedRB P then
       (if s.2.any hasMapMode then
         (let k := s.2.foldl (fun a t => let x := mapModeKinds t; (a.1 || x.1, a.2.1 || x.2.1, a.2.2 || x.2.2)) (false, false, false)
-         s!"typing: a typed-map mode map call (static={k.1} runtime={k.2.1} nested-below={k.2.2})") else "typing: other (struct to untyped map, map literal at untyped map, disabled map call, ...)") else
+         s!"typing: a typed-map mode map call (static={k.1} runtime={k.2.1} nested-below={k.2.2})") else "typing: " ++ firstBadBind P) else
     if !decide ((nodes.map fun n => fqid n.path).Nodup) then "node names" else
     if !treeOkList [] s.2 && !treeOkPList [] s.2 then "tree: typed-map mode / cancelling merge / id repeats" else
     if kindR == "X" then "index sets" else "oracle not clean / other"
